@@ -286,3 +286,232 @@ StrLength.__name__ = "Strategy_str_length"
 LEAVES = [Eq, Ne, Gt, Ge, Lt, Le, InRange, IsIn, NotIn, StrMatches, StrContains, StartsWith, EndsWith, StrLength]
 
 CONTRACTS = list(LEAVES)
+
+
+# ---------------------------------------------------------------------------------------
+# field_element_strategy: the chaining loop
+# ---------------------------------------------------------------------------------------
+#
+# verified against the INTERFACE contract of check strategy functions (pandera docs, "Defining Custom Strategies":
+# `strategy(pandera_dtype, strategy=None, **statistics)`: base when strategy is None, otherwise chained onto it):
+#     support(fn_j(dtype, None, **stats))  <= dom(dtype) & accepts_j          support(fn_j(dtype, s, **stats)) <= support(s) & accepts_j
+# The 14 built-in implementations of that interface are the leaf contracts above (with their recorded findings);
+# the registry wiring name -> implementation is the structural obligation below.
+
+
+class AcceptFn:
+    """accepts_j : the meaning of check j on one element (for an element-wise check: its check function)"""
+
+    def __init__(self, acc, j):
+        self.acc, self.j = acc, j
+        self.calls = []
+
+    def __call__(self, x):
+        self.calls.append(x)
+        return SBool(self.acc(self.j, PL._term(x) if not (isinstance(x, SNum) and x.is_int) else z3.ToReal(x.z)))
+
+
+class AbstractStrategyFn:
+    """a strategy function that satisfies the base-or-chain interface contract for check j (nothing else is known)"""
+
+    def __init__(self, accept, kind, sort, label):
+        self.accept, self.kind, self.sort, self.label = accept, kind, sort, label
+        self.calls = []
+        self.__name__ = label
+
+    def __call__(self, pandera_dtype, strategy=None, **statistics):
+        self.calls.append((pandera_dtype, strategy, statistics))
+        accept, kind = self.accept, self.kind
+        if strategy is None:
+            return StratVal.with_post(self.label, self.sort, lambda v: And(H.dom(kind, v), accept(v)))
+        if not isinstance(strategy, StratVal):
+            return StratVal.with_post(self.label, self.sort, lambda v: False)
+
+        def d():
+            v, c = strategy.draw()
+            return v, And(c, accept(v))
+
+        return StratVal(d, self.label, op="filter", base=strategy, arg=accept)
+
+
+class CheckName:
+    __pyvc_symbolic__ = True
+
+    def __init__(self, registered_fn):
+        self.registered_fn = registered_fn  # the implementation the dispatcher holds for (this name, pd.Series), or None
+
+    def __hash__(self):
+        return id(self)
+
+
+class DispatcherModel:
+    """STRATEGY_DISPATCHER seen through .get((check.name, data type), default)"""
+
+    __pyvc_symbolic__ = True
+
+    def __init__(self):
+        self.lookups = []
+
+    def get(self, key, default=None):
+        import pandas as pd
+
+        self.lookups.append(key)
+        name, dt = key
+        if isinstance(name, CheckName) and dt is pd.Series and name.registered_fn is not None:
+            return name.registered_fn
+        return default
+
+
+CHECK_KINDS = ["own_strategy", "dispatched", "element_wise_without_strategy", "vectorised_without_strategy"]
+
+
+def symbolic_checks(tag, name="checks"):
+    """a sequence of unknown length of checks of the four kinds field_element_strategy distinguishes"""
+    from pyvc.interp import OpaqueStar
+
+    sort, kind = SORT[tag], KIND[tag]
+    zs = z3.RealSort() if sort == "num" else z3.StringSort()
+    acc = z3.Function(cur().fresh_name("accepts"), z3.IntSort(), zs, z3.BoolSort())
+    contrib = z3.Function(cur().fresh_name("contributes"), z3.IntSort(), z3.BoolSort())
+    n = core.sym_int(f"len({name})")
+    cur().assume(n >= 0)
+    core.register_model_var(f"len({name})", n.z)
+
+    def elem(i):
+        p = cur()
+        iz = i.z if isinstance(i, SNum) else z3.IntVal(i)
+        k = p.choose([(c, None) for c in CHECK_KINDS], f"kind({name}[{iz}])")
+        o = Obj(None, f"{name}[{iz}]", pre=True)
+        accept = AcceptFn(acc, iz)
+        fn = AbstractStrategyFn(accept, kind, sort, f"strategy_of_{name}[{iz}]")
+        stats = DictObj()
+        stats.opaque_rest = OpaqueStar(f"{name}[{iz}].statistics", "kwargs")
+        o.attrs.update(strategy=fn if k == 0 else None, name=CheckName(fn if k == 1 else None), statistics=stats,
+                       element_wise=(core.sym_bool("element_wise") if k in (0, 1) else k == 2), _check_fn=accept)
+        o.attrs0.update(o.attrs)
+        o.c13 = dict(kind=CHECK_KINDS[k], fn=fn, accept=accept, stats=stats)
+        p.assume(SBool(contrib(iz) == z3.BoolVal(k != 3)))
+        return o
+
+    seq = SymSeq(name, n, elem)
+    seq.acc, seq.contrib, seq.sort, seq.kind = acc, contrib, sort, kind
+    return seq
+
+
+def all_contributing_accept(seq, upto, v):
+    """for an arbitrary j < upto: check j contributes an element constraint => accepts_j(v)   (j is a fresh constant)"""
+    j = z3.Int(cur().fresh_name("j"))
+    vz = PL._term(v) if not (isinstance(v, SNum) and v.is_int) else z3.ToReal(v.z)
+    up = upto.z if isinstance(upto, SNum) else z3.IntVal(upto)
+    return SBool(z3.Implies(z3.And(j >= 0, j < up, seq.contrib(j)), seq.acc(j, vz)))
+
+
+def all_contributing_accept_forall(seq, upto, v):
+    j = z3.Int(cur().fresh_name("jq"))
+    vz = PL._term(v) if not (isinstance(v, SNum) and v.is_int) else z3.ToReal(v.z)
+    up = upto.z if isinstance(upto, SNum) else z3.IntVal(upto)
+    return SBool(z3.ForAll([j], z3.Implies(z3.And(j >= 0, j < up, seq.contrib(j)), seq.acc(j, vz))))
+
+
+def base_strategy_only_error():
+    from pandera.errors import BaseStrategyOnlyError
+
+    return BaseStrategyOnlyError
+
+
+class FieldElementStrategy(Contract):
+    """support(field_element_strategy(dtype, checks=cs)) <= dom(dtype) & AND_{j : check j has a strategy or is element-wise} accepts_j.
+
+    Loop invariant (closed form in k):  elements is None and no check before k contributed, or
+    support(elements) <= dom(dtype) & AND_{j<k contributing} accepts_j."""
+
+    target = f"{MOD}:field_element_strategy"
+    raises = (base_strategy_only_error(),)
+    sym_globals = {f"{MOD}:STRATEGY_DISPATCHER": T.Lazy(lambda n: DispatcherModel())}
+    split = {"dtype": ["int", "float", "str"], "chained": [False, True], "checks": ["None", "some"]}
+
+    def setup(self, I):
+        install_common(I)
+
+    def make_args(self):
+        tag = self.fixed.get("dtype", "int")
+        p = cur()
+        p.labels.append(f"dtype={tag}")
+        p.ghost["c13_tag"] = tag
+        a = {"pandera_dtype": pandera_dtype(tag),
+             "strategy": StratVal.parameter("strategy", SORT[tag]) if self.fixed.get("chained") else None,
+             "checks": symbolic_checks(tag) if self.fixed.get("checks", "some") == "some" else None}
+        p.ghost["c13_checks"] = a["checks"]
+        return a
+
+    def call_target(self, I, fn, a):
+        return I.call(fn, [a["pandera_dtype"], a["strategy"]], {"checks": a["checks"]})
+
+    @property
+    def loops(self):
+        def havoc_elements(I, fr, k, old):
+            p = cur()
+            seq = p.ghost["c13_checks"]
+            b = p.choose([("elements=None", None), ("elements=strategy", None)], "elements before check k")
+            p.ghost["c13_elements_before"] = None
+            if b == 0:
+                j = z3.Int(p.fresh_name("jq"))
+                p.assume(SBool(z3.ForAll([j], z3.Implies(z3.And(j >= 0, j < k.z), z3.Not(seq.contrib(j))))))
+                return None
+            e = StratVal.with_post("elements_before_check_k", seq.sort, lambda v: And(H.dom(seq.kind, v), all_contributing_accept_forall(seq, k, v)))
+            p.ghost["c13_elements_before"] = e
+            return e
+
+        def invariant(I, fr, k, phase):
+            p = cur()
+            seq = p.ghost["c13_checks"]
+            e = fr.locals["elements"]
+            if phase == "init":
+                return {"starts_without_elements": e is None}
+            if phase == "assume":
+                return {}
+            # keep: k is (index of the check just processed) + 1
+            check = fr.locals["check"]
+            info = check.c13
+            before = p.ghost["c13_elements_before"]
+            out = {}
+            fn = info["fn"]
+            if info["kind"] in ("own_strategy", "dispatched"):
+                out["strategy_function_called_once_with_dtype_previous_elements_and_statistics"] = (
+                    len(fn.calls) == 1 and fn.calls[0][0] is fr.locals["pandera_dtype"] and fn.calls[0][1] is before
+                    and set(fn.calls[0][2]) == {"**opaque"} and fn.calls[0][2]["**opaque"] is info["stats"].opaque_rest)
+            else:
+                out["strategy_function_not_called"] = len(fn.calls) == 0
+            if info["kind"] == "vectorised_without_strategy":
+                out["vectorised_check_without_strategy_left_to_the_container"] = e is before
+                return out
+            out["contributing_check_yields_elements"] = isinstance(e, StratVal)
+            if not isinstance(e, StratVal):
+                return out
+            try:
+                v, c = e.draw()
+            except PyExc:
+                out["draw_total"] = False
+                return out
+            out["within_dtype"] = Implies(c, H.dom(seq.kind, v))
+            out["accepted_by_every_contributing_check_so_far"] = Implies(c, all_contributing_accept(seq, k, v))
+            return out
+
+        return {0: LoopSpec(invariant=invariant, havoc={"elements": havoc_elements})}
+
+    def ensures(self, result, old, pandera_dtype, strategy, checks):
+        tag = cur().ghost["c13_tag"]
+        out = {"base_strategy_only": strategy is None, "returns_a_strategy": isinstance(result, StratVal)}
+        if not isinstance(result, StratVal):
+            return out
+        v, c = result.draw()
+        out["within_dtype"] = Implies(c, H.dom(KIND[tag], v))
+        if checks is not None:
+            out["accepted_by_every_check_with_a_strategy_or_element_wise"] = Implies(c, all_contributing_accept(checks, checks.n, v))
+        return out
+
+    def on_raise(self, exc, old, pandera_dtype, strategy, checks):
+        return {"only_a_chained_call_is_rejected": exc.cls is base_strategy_only_error() and strategy is not None}
+
+
+CONTRACTS.append(FieldElementStrategy)
